@@ -11,6 +11,7 @@ from checks.rfafam import WINDOW, ALL6, shape_configs, inputs, make, effective_a
 
 class NoOvershoot(Family):
     name = "window-no-overshoot"
+    split_depth = 12
     doc = "four window strategies: every value between own and neighbour average; plateau; monotone transitions"
     query_timeout_ms = 30000
 
